@@ -30,7 +30,7 @@ def one(seed, checks):
 def main():
     seed = sys.argv[1]
     checks = sys.argv[2:] or None
-    seeds = sorted(os.listdir(os.path.join(VERIF, "seeded"))) if seed == "all" else [seed]
+    seeds = sorted(d for d in os.listdir(os.path.join(VERIF, "seeded")) if os.path.isdir(os.path.join(VERIF, "seeded", d))) if seed == "all" else [seed]
     jobs = [(s, checks or ALL) for s in seeds]
     with ThreadPoolExecutor(max_workers=5) as ex:
         for s, out in ex.map(lambda j: one(*j), jobs):
